@@ -299,6 +299,26 @@ static bool dispatch_case(Context& cx, uint32_t c, int a, double b, const std::s
     return true;
 }
 
+// best-first: an architecture derived from (= extending) another one must appear before it
+template <class A>
+static std::string order_after(xsimd::arch_list<A>) { return ""; }
+template <class A, class B, class... R>
+static std::string order_after(xsimd::arch_list<A, B, R...>)
+{
+    // A is at the head: nothing after it may be derived from it
+    if (std::is_base_of<A, B>::value && !std::is_same<A, B>::value)
+        return std::string(B::name()) + " (an extension of " + A::name() + ") is listed after it: the list is not best-first";
+    std::string r = order_after(xsimd::arch_list<A, R...> {});
+    return r;
+}
+static std::string order_violation(xsimd::arch_list<>) { return ""; }
+template <class A, class... R>
+static std::string order_violation(xsimd::arch_list<A, R...>)
+{
+    std::string r = order_after(xsimd::arch_list<A, R...> {});
+    return r.empty() ? order_violation(xsimd::arch_list<R...> {}) : r;
+}
+
 using L_all = xsimd::supported_architectures;
 using L_x86 = xsimd::all_x86_architectures;
 using L_no512 = xsimd::arch_list<xsimd::avxvnni, xsimd::fma3<xsimd::avx2>, xsimd::avx2, xsimd::fma3<xsimd::avx>, xsimd::avx, xsimd::fma3<xsimd::sse4_2>, xsimd::sse4_2, xsimd::sse4_1, xsimd::ssse3, xsimd::sse3, xsimd::sse2>;
@@ -358,7 +378,16 @@ int main(int argc, char** argv)
             return 2;
         uint32_t c = (uint32_t)strtoull(tok[3].c_str(), 0, 10);
         bool ok = true;
-        if (tok[0].rfind("dispatch:", 0) == 0)
+        if (tok[0] == "list_order")
+        {
+            std::string bad = order_violation(xsimd::all_x86_architectures {});
+            if (bad.empty())
+                bad = order_violation(xsimd::supported_architectures {});
+            ok = bad.empty();
+            if (!ok)
+                cx.add_violation(mkviol("list_order", 0, bad));
+        }
+        else if (tok[0].rfind("dispatch:", 0) == 0)
         {
             for (int w = 0; w < kNLists; ++w)
             {
@@ -369,11 +398,17 @@ int main(int argc, char** argv)
         else
         {
             g_cfg = c;
+            g_xgetbv_calls = 0;
             xsimd::detail::supported_arch s;
             Verdict v;
             ok = judge(c, s, v, nullptr);
             if (!ok)
                 cx.add_violation(mkviol("availability", c, v.why));
+            if (ok && !bit(c, F_OSXSAVE) && g_xgetbv_calls)
+            {
+                ok = false;
+                cx.add_violation(mkviol("availability", c, "XGETBV executed although CPUID.OSXSAVE is clear (the instruction faults there)"));
+            }
             // the cached accessor must agree with a fresh detection when the cache is bypassed
         }
         printf(ok ? "REPLAY-PASS\n" : "REPLAY-FAIL %s\n", ok ? "" : cx.violations[0].to_json().c_str());
@@ -441,6 +476,19 @@ int main(int argc, char** argv)
     cx.st.distinct_extra = nontrivial;
     // distinct non-trivial: every configuration word is distinct by construction
     cx.st.exhaustive = true;
+
+    // ---------------- static part: the default lists are ordered best-first (no architecture appears after one of its bases)
+    if (cx.opt.worker == 0)
+    {
+        std::string bad = order_violation(xsimd::all_x86_architectures {});
+        if (bad.empty())
+            bad = order_violation(xsimd::supported_architectures {});
+        if (bad.empty() && !std::is_same<xsimd::best_arch, typename xsimd::supported_architectures::best>::value)
+            bad = "best_arch is not the head of supported_architectures";
+        cx.st.evaluations++;
+        if (!bad.empty())
+            cx.add_violation(mkviol("list_order", 0, bad));
+    }
 
     // ---------------- part 2: dispatch (rapidcheck)
     uint64_t dispatch_cases = 0, dispatch_nontrivial = 0;
